@@ -5,6 +5,26 @@ pid = sys.argv[1]
 n = sys.argv[2] if len(sys.argv) > 2 else 'a'
 p = [json.loads(l) for l in open('/verif/properties.jsonl') if json.loads(l)['id'] == pid][0]
 wt = '/tmp/mut-%s%s' % (pid, n)
+# later rounds: name the changes earlier rounds already made (descriptions of source changes only, nothing about the checks)
+import glob, os
+prev = []
+V = os.path.dirname(os.path.dirname(os.path.abspath(__file__)))
+try:
+    table = json.load(open(os.path.join(V, 'seeded', 'results_extra.json')))
+except Exception:
+    table = {}
+for d in sorted(glob.glob(os.path.join(V, 'seeded', pid + '-*'))):
+    k = os.path.basename(d)
+    try:
+        m = json.load(open(os.path.join(d, 'meta.json')))
+    except Exception:
+        m = {}
+    desc = (table.get(k) or [m.get('breaks_clause', '')])[0]
+    prev.append('  - %s: %s' % (', '.join(m.get('files_changed', []) or ['?']), str(desc)[:300]))
+already = ''
+if prev and n != 'a':
+    already = ('\n\nOther developers have ALREADY delivered the following changes for this property; do not repeat them or close variants - '
+               'pick other functions, other clauses of the property and other kinds of trigger:\n' + '\n'.join(prev))
 print('''You are helping to evaluate a verification effort by playing a careless-but-plausible developer. The software is stepcode (STEPcode: an ISO 10303-11 EXPRESS schema parser/resolver that generates C++/Python classes, plus runtime libraries that read and write STEP Part 21 files), a git repository at /repo. Do NOT work in /repo itself and do NOT read or use anything under /verif. Create your own scratch git worktree and work only there:
 
     git -C /repo worktree add --detach %(wt)s HEAD
@@ -25,4 +45,4 @@ For each change deliver, under %(wt)s/deliver/<1|2>/ :
 Practical hints. Build out of tree, e.g.:
     cmake -G Ninja -S %(wt)s -B %(wt)s-build -DCMAKE_BUILD_TYPE=RelWithDebInfo -DSC_ENABLE_TESTING=ON -DSC_BUILD_SCHEMAS="%(wt)s/test/unitary_schemas/inverse_attr.exp;%(wt)s/data/ap203/ap203.exp" && ninja -C %(wt)s-build
 (building ALL schemas takes very long; pick the few schemas/tests relevant to the code you touch; test/unitary_schemas/*.exp are small; `ctest --test-dir %(wt)s-build -j8` then runs the tests that exist for that configuration; the tool binaries are in bin/, e.g. check-express, exppp, exp2cxx, exp2python, p21read_sdai_<schema>, lazy_sdai_<schema>; the pure-Python runtime is under src/exp2python/python). The full suite is 258 tests (generate/build/read-write of 20 shipped schemas + unit tests); you cannot run all of it in reasonable time - run what is relevant and say what you ran; your change must not make any existing test fail, so think about which existing tests touch the code you change (grep the test directories: test/, src/*/test, src/test, test/cpp, test/p21, test/unitary_schemas).
-The machine has 16 cores shared with other jobs. Keep everything under %(wt)s and %(wt)s-build (and a second build dir for the unmodified HEAD if you need one to show the demonstration passes without the change). When you are done leave %(wt)s/deliver in place (I will collect it), remove the build directories, and reply with a short summary: for each change the file/function, the clause broken, what is needed to manifest, and how the demonstration shows it.''' % dict(wt=wt, pid=pid, title=p['title'], statement=p['statement'], quant=p['quantifier']['text']))
+The machine has 16 cores shared with other jobs. Keep everything under %(wt)s and %(wt)s-build (and a second build dir for the unmodified HEAD if you need one to show the demonstration passes without the change). When you are done leave %(wt)s/deliver in place (I will collect it), remove the build directories, and reply with a short summary: for each change the file/function, the clause broken, what is needed to manifest, and how the demonstration shows it.%(already)s''' % dict(already=already, wt=wt, pid=pid, title=p['title'], statement=p['statement'], quant=p['quantifier']['text']))
